@@ -1,6 +1,236 @@
-//! Harness for property C19 (stub: not built yet).
+//! C19 — unreadable elements are invisible; only the control plane changes authority.
+//!
+//! Four kinds of case (first op line `mode …`):
+//!  * `authz`    control-plane history + `auth`/`names` questions: real `EffectiveAuthority` vs Lean model,
+//!               and an oracle re-deriving must-hold facts from the op list (authz.rs);
+//!  * `gate`     KIP command texts: real `gate::*_permissions` vs the model interpreting regenerated tables,
+//!               and a keyword-level oracle (gate.rs);
+//!  * `nonint`   relational non-interference: a restricted Principal's answers on store S against the
+//!               owner's answers on a store rebuilt from only what that Principal may read (nonint.rs);
+//!  * `preserve` every session command leaves gov_* rows, Space governance members and existing element
+//!               governance blocks byte-identical and the audit prefix-preserved (preserve.rs).
+mod authz;
+mod gate;
+mod nonint;
+mod preserve;
+mod wire;
+
+use anda_cognitive_nexus::CognitiveNexus;
+use anda_db::database::{AndaDB, DBConfig};
+use object_store::memory::InMemory;
+use std::sync::Arc;
+use vh_common::serde_json::json;
+use vh_common::*;
+
+pub async fn fresh(stocked: bool) -> Result<CognitiveNexus, String> {
+    let db = AndaDB::connect(Arc::new(InMemory::new()), DBConfig { name: "c19".into(), description: String::new(), ..Default::default() })
+        .await
+        .map_err(|e| format!("connect: {e}"))?;
+    let nexus = CognitiveNexus::connect(Arc::new(db)).await.map_err(|e| format!("nexus: {e:?}"))?;
+    if stocked {
+        use anda_cognitive_nexus::schema::{PackageState, SchemaLock, SchemaPackage};
+        let pkg = SchemaPackage::parse(anda_cognitive_nexus::profiles::COGNITIVE_MEMORY).map_err(|e| format!("profile: {e:?}"))?;
+        nexus.install_package(&pkg, "vh").await.map_err(|e| format!("install: {e:?}"))?;
+        let mut lock = SchemaLock::default();
+        lock.packages.insert("kip://profiles/cognitive-memory".into(), "2.0.0".into());
+        lock.states.insert("kip://profiles/cognitive-memory".into(), PackageState::Active);
+        nexus.activate_schema(anda_cognitive_nexus::nexus::DEFAULT_SPACE, lock).await.map_err(|e| format!("activate: {e:?}"))?;
+    }
+    Ok(nexus)
+}
+
+/// What one case produced: oracle failures `(key, what, ops context, expected, observed)`, disagreements
+/// `(what, ops context, model, impl)`, histogram keys, whether it was non-trivial, #model comparisons.
+#[derive(Default)]
+pub struct CaseOut {
+    pub failures: Vec<(String, String, Vec<String>, String, String)>,
+    pub disagreements: Vec<(String, Vec<String>, String, String)>,
+    pub hits: Vec<String>,
+    pub nontrivial: bool,
+    pub compared: u64,
+    pub measured: Vec<(String, f64)>,
+}
+
+async fn run_authz(ops: &[String], model: &mut Option<ModelProc>) -> Result<CaseOut, String> {
+    let nexus = fresh(false).await?;
+    let mut out = CaseOut::default();
+    let mut rf = authz::Ref::new();
+    if let Some(m) = model.as_mut() { m.ask("reset"); }
+    for (i, op) in ops.iter().enumerate() {
+        if op.starts_with("mode ") { continue; }
+        let got = authz::apply(&nexus, op).await;
+        let head = op.split(' ').next().unwrap_or("");
+        out.hits.push(format!("op:{head}"));
+        if got == "bad-op" { out.hits.push("bad-op".into()); continue; }
+        rf.track(op);
+        if head == "auth" || head == "names" {
+            let dec = got.split(' ').nth(1).unwrap_or("");
+            out.hits.push(if got.starts_with("ok ") { format!("decision:{dec}") } else if got.starts_with("held") { "names".into() } else { format!("answer:{got}") });
+            if got.contains("used=kip:grant") { out.hits.push("witness:grant".into()); out.nontrivial = true; }
+            if got.contains("used=kip:delegation") { out.hits.push("witness:delegation".into()); out.nontrivial = true; }
+            if got.contains("used=policy:") { out.hits.push("witness:policy".into()); out.nontrivial = true; }
+            if got.contains("used=owner:") { out.hits.push("witness:owner".into()); }
+            if op.split(' ').nth(6).is_some_and(|c| c != "-") && head == "auth" { out.hits.push("named-chain".into()); }
+            for (key, what, expected) in rf.judge(op, &got) {
+                out.failures.push((key, what, ops[..=i].to_vec(), expected, got.clone()));
+            }
+        }
+        if let Some(m) = model.as_mut() {
+            let ans = m.ask(op);
+            out.compared += 1;
+            if ans != got {
+                out.disagreements.push((format!("answer to `{head}`"), ops[..=i].to_vec(), ans, got.clone()));
+            }
+        }
+    }
+    Ok(out)
+}
+
+fn run_gate(ops: &[String], model: &mut Option<ModelProc>) -> CaseOut {
+    let mut out = CaseOut::default();
+    for op in ops {
+        let Some(text) = op.strip_prefix("cmd ") else { continue };
+        match gate::run(text) {
+            None => out.hits.push("gate:unparsed".into()),
+            Some(row) => {
+                out.hits.push(format!("gate:{}", row.family));
+                if row.answer != "perms -" { out.nontrivial = true; }
+                for (key, expected) in gate::judge(text, &row.answer) {
+                    out.failures.push((key, "the command gate asks for less than the property requires".into(), vec!["mode gate".into(), op.clone()], expected, row.answer.clone()));
+                }
+                if let Some(m) = model.as_mut() {
+                    let ans = m.ask(&row.model_req);
+                    out.compared += 1;
+                    if ans != row.answer {
+                        out.disagreements.push(("gate permissions".into(), vec!["mode gate".into(), op.clone(), row.model_req.clone()], ans, row.answer.clone()));
+                    }
+                }
+            }
+        }
+    }
+    out
+}
+
+fn run_case(rt: &tokio::runtime::Runtime, ops: &[String], model: &mut Option<ModelProc>) -> Result<CaseOut, String> {
+    let mode = ops.first().and_then(|l| l.strip_prefix("mode ")).unwrap_or("authz").to_string();
+    let r = std::panic::catch_unwind(std::panic::AssertUnwindSafe(|| match mode.as_str() {
+        "authz" => rt.block_on(run_authz(ops, model)),
+        "gate" => Ok(run_gate(ops, model)),
+        "nonint" => rt.block_on(nonint::run(ops, model)),
+        "preserve" => rt.block_on(preserve::run(ops)),
+        other => Err(format!("unknown mode {other}")),
+    }));
+    match r {
+        Ok(x) => x,
+        Err(_) => {
+            let mut out = CaseOut::default();
+            out.failures.push(("panic".into(), "the implementation panicked".into(), ops.to_vec(), "no panic".into(), "panic".into()));
+            Ok(out)
+        }
+    }
+}
+
 fn main() {
-    let a = vh_common::Args::parse();
-    let r = vh_common::Report::new("C19", &a, "stub");
-    r.write(&a);
+    let args = Args::parse();
+    let mut rep = Report::new(
+        "C19",
+        &args,
+        "cases of four kinds: authz = control-plane history (principals, groups, grants scoped by kind/type/classification/element, delegation chains, \
+         policy statements with conditions/obligations, revocations, expiries, suspensions) with auth questions, non-trivial when some answer is carried by a \
+         Grant, Delegation or policy statement; gate = KIP command texts, non-trivial when a permission is demanded; nonint = governed population + restricted \
+         reader + query battery, non-trivial when the reader sees a non-empty proper subset and some answer is non-empty; preserve = governed store + command \
+         battery, non-trivial when some command commits. distinct = distinct op list",
+    );
+    let rt = tokio::runtime::Builder::new_multi_thread().worker_threads(2).enable_all().build().unwrap();
+    let mut model = ModelProc::from_args(&args);
+    if let Some(m) = model.as_mut() {
+        let c = m.ask("consts");
+        let want = format!("MAX_DELEGATION_DEPTH=8 permissions={}", anda_cognitive_nexus::governance::Permission::ALL.len());
+        if c != want { rep.disagreement("constants", &["consts".into()], &c, &want); }
+    }
+
+    let mut cases: Vec<(String, Vec<String>)> = vec![];
+    if let Some(p) = &args.replay {
+        cases.push(("replay".into(), read_replay(p)));
+    } else {
+        if let Some(dir) = &args.corpus { cases.extend(read_corpus(dir)); }
+        cases.push(("gate-fixed".into(), gate::all_fixed()));
+        let focus = args.focus.clone().unwrap_or_default();
+        let only = |k: &str| focus.is_empty() || !["authz", "gate", "nonint", "preserve"].iter().any(|m| focus.contains(m)) || focus.contains(k);
+        let budgets: [(&str, u64, u64); 4] = [("authz", 700, 40000), ("gate", 60, 2000), ("nonint", 36, 1500), ("preserve", 14, 500)];
+        for (kind, q, t) in budgets {
+            if !only(kind) { continue; }
+            for i in 0..args.budget(q, t) {
+                let salt = match kind { "authz" => 0u64, "gate" => 1 << 40, "nonint" => 2 << 40, _ => 3 << 40 };
+                let mut r = Rng::for_case(args.seed, salt + i);
+                let ops = match kind {
+                    "authz" => authz::gen_case(&mut r),
+                    "gate" => gate::gen_case(&mut r),
+                    "nonint" => nonint::gen_case(&mut r),
+                    _ => preserve::gen_case(&mut r),
+                };
+                cases.push((format!("{kind}{i}"), ops));
+            }
+        }
+    }
+
+    let mut samples_by_mode = std::collections::BTreeSet::new();
+    for (name, ops) in &cases {
+        let out = match run_case(&rt, ops, &mut model) {
+            Ok(o) => o,
+            Err(e) => { rep.hit("case_error"); if rep.notes.len() < 20 { rep.notes.push(format!("{name}: case could not run: {e}")); } continue; }
+        };
+        for h in &out.hits { rep.hit(h); }
+        for (k, v) in &out.measured { let e = rep.measured.entry(k.clone()).or_insert(json!(0.0)); *e = json!(e.as_f64().unwrap_or(0.0) + v); }
+        rep.model_compared += out.compared;
+        rep.case(&ops.join("|"), out.nontrivial);
+        let mode = ops.first().cloned().unwrap_or_default();
+        if samples_by_mode.insert(mode) { rep.sample(json!({"case": name, "ops": ops.iter().take(30).collect::<Vec<_>>()})); }
+
+        // oracle failures: one per key per case, shrunk
+        let mut seen = std::collections::BTreeSet::new();
+        for (key, what, ctx, expected, observed) in out.failures {
+            if !seen.insert(key.clone()) { continue; }
+            let small = if args.replay.is_some() || key == "panic" { ctx.clone() } else {
+                let head = ctx[0].clone();
+                let k2 = key.clone();
+                let mut s = shrink(ctx[1..].to_vec(), |cand| {
+                    let mut c = vec![head.clone()];
+                    c.extend_from_slice(cand);
+                    let mut none = None;
+                    run_case(&rt, &c, &mut none).is_ok_and(|o| o.failures.iter().any(|f| f.0 == k2))
+                }, 120);
+                s.insert(0, head);
+                s
+            };
+            // re-run the shrunk case to report its own expected/observed
+            let mut none = None;
+            let fresh_out = run_case(&rt, &small, &mut none).ok().and_then(|o| o.failures.into_iter().find(|f| f.0 == key));
+            match fresh_out {
+                Some((k, w, c, e, o)) => rep.oracle_failure(&k, &format!("{w} [{name}]"), &c, &e, &o),
+                None => rep.oracle_failure(&key, &format!("{what} [{name}]"), &ctx, &expected, &observed),
+            }
+        }
+        if let Some((what, ctx, m, i)) = out.disagreements.into_iter().next() {
+            let small = if args.replay.is_some() || model.is_none() || !ctx[0].starts_with("mode authz") { ctx.clone() } else {
+                let head = ctx[0].clone();
+                let last = ctx.last().cloned().unwrap();
+                let mut s = shrink(ctx[1..ctx.len() - 1].to_vec(), |cand| {
+                    let mut c = vec![head.clone()];
+                    c.extend_from_slice(cand);
+                    c.push(last.clone());
+                    run_case(&rt, &c, &mut model).is_ok_and(|o| o.disagreements.iter().any(|d| d.1.last() == Some(&last)))
+                }, 150);
+                s.insert(0, head);
+                s.push(last);
+                s
+            };
+            let again = run_case(&rt, &small, &mut model).ok().and_then(|o| o.disagreements.into_iter().next());
+            match again {
+                Some((w, c, mm, ii)) => rep.disagreement(&format!("{w} [{name}]"), &c, &mm, &ii),
+                None => rep.disagreement(&format!("{what} [{name}]"), &ctx, &m, &i),
+            }
+        }
+    }
+    rep.write(&args);
 }
